@@ -244,6 +244,8 @@ func errKind(err error) string {
 		return "err too-many-tags"
 	case strings.Contains(m, "too many fields"):
 		return "err too-many-fields"
+	case strings.Contains(m, "injected kv flush failure"):
+		return "err flush-failed"
 	case strings.Contains(m, "not found"):
 		return "notfound"
 	}
@@ -393,6 +395,23 @@ func (s *sys) indexFlushPrefix(shard, k int) error {
 		}
 	}
 	return nil
+}
+
+// metaFlushFail: metricMetaDatabase.Flush during which the first dictionary flush that writes fails
+// at its kv family commit (fault seam index.VerifFailNextKVFlush).
+func (s *sys) metaFlushFail() error {
+	index.VerifFailNextKVFlush(1)
+	err := s.meta.Flush()
+	index.VerifFailNextKVFlush(0)
+	return err
+}
+
+// indexFlushFail: the same for one shard's metricIndexDatabase.Flush (its series dictionary).
+func (s *sys) indexFlushFail(shard int) error {
+	index.VerifFailNextKVFlush(1)
+	err := s.shards[shard].Flush()
+	index.VerifFailNextKVFlush(0)
+	return err
 }
 
 func okOut(err error) string {
